@@ -42,6 +42,7 @@ type World struct {
 
 	roles *roleInfo
 	escMemo map[*ssa.Function]bool
+	spawnMemo map[*ssa.Function]bool
 	comm  *commTable
 }
 
@@ -182,11 +183,8 @@ func (w *World) isRoundTripType(t types.Type) bool {
 		}
 		return false
 	}
-	if sig, ok := t.Underlying().(*types.Signature); ok {
-		// meta functions func(string) string and friends
-		_ = sig
-		return true
-	}
+	// unnamed function types (closures received from the module's own channels, meta functions):
+	// VTA is trusted when it finds callees; the CHA fallback applies only when it finds none.
 	return false
 }
 
@@ -261,9 +259,6 @@ func (w *World) buildCallGraph() {
 	}
 	for fn := range all {
 		if fn.Blocks == nil {
-			continue
-		}
-		if !w.inModule(fn) && !w.wrapsModule(fn) {
 			continue
 		}
 		for _, b := range fn.Blocks {
@@ -482,6 +477,39 @@ func (w *World) escapesToClient(f *ssa.Function) bool {
 		for _, in := range b.Instrs {
 			if mc, ok := in.(*ssa.MakeClosure); ok && mc.Fn == f {
 				visit(mc)
+				continue
+			}
+			// closure without free variables: the function value itself is the operand
+			for _, op := range in.Operands(nil) {
+				if *op != ssa.Value(f) {
+					continue
+				}
+				switch x := in.(type) {
+				case *ssa.Send:
+					if x.X != ssa.Value(f) {
+						esc = true
+					}
+				case *ssa.Select:
+				case *ssa.Call:
+					if x.Call.Value != ssa.Value(f) {
+						esc = true
+					}
+				case *ssa.Go:
+					if x.Call.Value != ssa.Value(f) {
+						esc = true
+					}
+				case *ssa.Defer:
+					if x.Call.Value != ssa.Value(f) {
+						esc = true
+					}
+				case *ssa.ChangeType:
+					visit(x)
+				case *ssa.Phi:
+					visit(x)
+				case *ssa.DebugRef:
+				default:
+					esc = true
+				}
 			}
 		}
 	}
